@@ -430,8 +430,8 @@ impl Exec {
                 let Ok(k) = k.parse::<usize>() else { return false };
                 let mut prog = Vec::new();
                 for o in ops.split(';') {
-                    let Some(c) = crate::conc::parse_cop(&o.replace('~', " ")) else { return false };
-                    prog.push(c);
+                    let Some(cs) = crate::conc::parse_cops(&o.replace('~', " ")) else { return false };
+                    prog.extend(cs);
                 }
                 if k < self.cprog.len() { self.cprog[k] = prog } else { self.cprog.push(prog) }
                 self.emit(line, "conc.thread");
@@ -744,6 +744,14 @@ impl Exec {
                 let Some(text) = crate::codec::unhex(h) else { return false };
                 let out = crate::codec::parse_by_type(ty, &text).unwrap_or_else(|| "?".into());
                 self.emit(line, format!("parsed {out}"));
+                self.emit(format!("judge.C18 {out}"), "J C18 ok");
+            }
+            ["json.dec", ty, rest @ ..] => {
+                // a (damaged) JSON text handed to the decoder of `ty`
+                let h = rest.first().copied().unwrap_or("");
+                let Some(text) = crate::codec::unhex(h) else { return false };
+                let out = crate::jsonc::dec_by_type(ty, &text).unwrap_or_else(|| "?".into());
+                self.emit(line, format!("jparsed {out}"));
                 self.emit(format!("judge.C18 {out}"), "J C18 ok");
             }
             ["json.rt", ty, v] => {
